@@ -145,19 +145,24 @@ var (
 
 // ByzStrategy is what one Byzantine keyper does (positions are config indices).
 type ByzStrategy struct {
-	Commit     int
-	DegDelta   int         // wrong degree: +1 or -1
-	Eval       map[int]int // receiver position -> evCorrect/evWrong/evNone
-	Accuse     []int       // positions accused (falsely if the target is honest)
-	Apology    int
-	LateDeal   bool // commitment and evals land in the first block after the dealing phase
-	LateAcc    bool
-	LateApo    bool
-	EarlyAcc   bool // accusation already in the last blocks of the dealing phase (outside the stated alphabet)
-	EarlyApo   bool // apology already in the last blocks of the accusing phase
-	DealOff    int  // block offset inside the phase when not late (0..L-1)
-	AccOff     int
-	ApoOff     int
+	Commit   int
+	DegDelta int         // wrong degree: +1 or -1
+	Eval     map[int]int // receiver position -> evCorrect/evWrong/evNone
+	Accuse   []int       // positions accused (falsely if the target is honest)
+	Apology  int
+	LateDeal bool // commitment and evals land in the first block after the dealing phase
+	LateAcc  bool
+	LateApo  bool
+	EarlyAcc bool // accusation already in the last blocks of the dealing phase (outside the stated alphabet)
+	EarlyApo bool // apology already in the last blocks of the accusing phase
+	DealOff  int  // block offset inside the phase when not late (0..L-1)
+	AccOff   int
+	ApoOff   int
+	// Repeat: before each accusation, apology and eval message the keyper first
+	// sends a copy whose address list repeats its first entry (accused [H,H] or
+	// [H,X,H], accusers / receivers likewise). shuttermint refuses such lists, so
+	// on a correct chain the copy has no effect and the regular message follows.
+	Repeat     bool
 	AnswerLate bool // also apologize for accusations that reached the chain outside the accusing phase
 }
 
@@ -185,6 +190,9 @@ func (s ByzStrategy) String() string {
 		cm += fmt.Sprintf("%+d", s.DegDelta)
 	}
 	apo := apNames[s.Apology]
+	if s.Repeat {
+		cm = "repeated-addresses," + cm
+	}
 	if s.AnswerLate {
 		apo += "(also for late accusations)"
 	}
@@ -751,6 +759,9 @@ func (r *Run) act(b *byzActor) {
 			cts = append(cts, ct)
 		}
 		if len(receivers) > 0 {
+			if st.Repeat {
+				r.submitByz(b, shmsg.NewPolyEval(r.eon, append(append([]common.Address{}, receivers...), receivers[0]), append(append([][]byte{}, cts...), cts[0])), "evals-repeated-receiver")
+			}
 			r.submitByz(b, shmsg.NewPolyEval(r.eon, receivers, cts), "evals")
 		}
 	}
@@ -760,6 +771,9 @@ func (r *Run) act(b *byzActor) {
 		var acc []common.Address
 		for _, p := range st.Accuse {
 			acc = append(acc, r.addrs[p])
+		}
+		if st.Repeat {
+			r.submitByz(b, shmsg.NewAccusation(r.eon, append(append([]common.Address{}, acc...), acc[0])), "accuse-repeated-accused")
 		}
 		r.submitByz(b, shmsg.NewAccusation(r.eon, acc), "accuse")
 	}
@@ -794,6 +808,9 @@ func (r *Run) act(b *byzActor) {
 		if len(accusers) > 0 {
 			// shuttermint admits one apology message per sender: later
 			// accusers only get one if this is the first.
+			if st.Repeat {
+				r.submitByz(b, shmsg.NewApology(r.eon, append(append([]common.Address{}, accusers...), accusers[0]), append(append([]*big.Int{}, evals...), evals[0])), "apologize-repeated-accuser")
+			}
 			r.submitByz(b, shmsg.NewApology(r.eon, accusers, evals), "apologize")
 		}
 	}
